@@ -270,7 +270,11 @@ func runC16(s *core.Sim, tier string) RunInfo {
 				tk = s.Go("gossip", func() {
 					c, cancel := context.WithTimeout(ctx, 20*time.Minute)
 					defer cancel()
-					_ = w.Sub.Deliver(c, h)
+					// the newest honest header: whatever becomes of the tail move it triggers (K02,
+					// a refusing handler, a failing disk), that is not a verdict on the header
+					if gerr := w.Sub.Deliver(c, h); gerr != nil && time.Since(h.Time()) < p.trusting && !strings.Contains(gerr.Error(), simdisk.ErrInjected.Error()) {
+						s.Violate("honest-gossip-refused", nil, "the network head %d, delivered by gossip, was refused: %v [%s]", h.Height(), gerr, p.desc)
+					}
 				})
 			}
 			if stuck := s.Settle(30*time.Minute, tk); len(stuck) > 0 {
